@@ -108,7 +108,7 @@ func checkC09(p *Prog, res *Result, tier string) {
 	res.rule("C09-R5", "a nil error is returned to the client only after success or a definite failure class", 6)
 
 	seq := r.Sequencer
-	ev, loadCall := consumedEvent(seq)
+	se, _ := sequencerEvent(p, r)
 	appendM := p.ifaceMethod("pkg/backend/retry", "AsyncFifoRetry", "Append")
 	uncertain := p.global("pkg/storage", "ErrUncertainResult")
 	casFailed := p.global("pkg/storage", "ErrCASFailed")
@@ -116,21 +116,30 @@ func checkC09(p *Prog, res *Result, tier string) {
 	revField := p.structField("pkg/backend/common", "WatchEvent", "Revision")
 
 	// ---- R1 ----
+	// the append of the consumed event to the repair queue, anywhere in the sequencer goroutine's region
 	var app ssa.CallInstruction
-	for _, c := range callsIn(seq) {
-		if p.isCallToMethod(c, appendM) && c.Common().IsInvoke() && resolve(argForSigParam(c, 0)) == ev {
-			app = c
+	var appChain callChain
+	if se != nil {
+		for _, ch := range se.rg.chainsIn(p, func(ins ssa.Instruction) bool {
+			c, ok := ins.(ssa.CallInstruction)
+			return ok && p.isCallToMethod(c, appendM) && c.Common().IsInvoke()
+		}) {
+			c := ch.target.(ssa.CallInstruction)
+			if se.isEv(argForSigParam(c, 0), frameOfChain(ch)) {
+				app, appChain = c, ch
+			}
 		}
 	}
 	construct := funcName(seq) + ": enqueue unknown-outcome slot before commit"
-	if ev == nil || app == nil {
+	if se == nil || app == nil {
 		res.bad("C09-R1", construct, p.pos(seq.Pos()), "the sequencer never appends the consumed event to the repair queue: an unknown-outcome write is never repaired")
 	} else {
 		// (b) guarded by errors.Is(ev.Err, ErrUncertainResult)
 		guarded, eqForm := false, false
-		for _, cf := range dominatingFacts(app.Block()) {
+		for _, cf := range appChain.facts() {
+			fr := frameOfChain(callChain{calls: appChain.calls[:cf.level], fns: appChain.fns[:cf.level+1]})
 			if x, tgt, ok := errorsIsCall(cf.Raw); ok && cf.Want {
-				if globalLoad(tgt) == uncertain && isFieldOf(x, errField, ev) {
+				if globalLoad(tgt) == uncertain && se.fieldOfEv(x, errField, fr) {
 					guarded = true
 				}
 			}
@@ -147,24 +156,25 @@ func checkC09(p *Prog, res *Result, tier string) {
 			res.bad("C09-R1", funcName(seq)+": queueing condition uses errors.Is(ev.Err, ErrUncertainResult)", p.pos(app.Pos()), "the append to the repair queue is not guarded by errors.Is(event.Err, ErrUncertainResult)")
 		}
 		// (c) no commit of this event's revision can precede the append in the same iteration
-		isCommit := func(ins ssa.Instruction) bool {
+		bad := false
+		for _, ch := range se.rg.chainsIn(p, func(ins ssa.Instruction) bool {
 			c, ok := ins.(ssa.CallInstruction)
 			if !ok {
 				return false
 			}
-			arg, ok := r.commitArg(c)
-			return ok && isFieldOf(arg, revField, ev)
-		}
-		bad := false
-		for _, c := range callsIn(seq) {
-			ci := c.(ssa.Instruction)
-			if !isCommit(ci) {
+			_, isC := r.commitArg(c)
+			return isC
+		}) {
+			c := ch.target.(ssa.CallInstruction)
+			fr := frameOfChain(ch)
+			arg, _ := r.commitArg(c)
+			if !se.fieldOfEv(arg, revField, fr) {
 				continue
 			}
-			cp := posOf(ci)
-			ins, _ := searchFrom(cp.b, cp.i+1, searchOpts{
-				stop: func(i ssa.Instruction) bool { return i == loadCall.(ssa.Instruction) },
-				bad:  func(i ssa.Instruction) bool { return i == app.(ssa.Instruction) },
+			cp := posOf(c.(ssa.Instruction))
+			ins, _, _ := se.rg.search(fr, cp.b, cp.i+1, superOpts{
+				stop: func(i ssa.Instruction, _ *frame) bool { return i == se.load.(ssa.Instruction) },
+				bad:  func(i ssa.Instruction, _ *frame) bool { return i == app.(ssa.Instruction) },
 			})
 			if ins != nil {
 				bad = true
